@@ -9,6 +9,14 @@ use prometheus::*;
 
 pub struct PbArea;
 
+/// a writer that accepts at most `max` bytes per `write` call (as pipes, sockets and `LineWriter`s may),
+/// and nothing at all once `cap` bytes have been taken (a full fixed-size buffer)
+struct Chunky { got: Vec<u8>, max: usize, cap: usize }
+impl std::io::Write for Chunky {
+    fn write(&mut self, b: &[u8]) -> std::io::Result<usize> { let n = b.len().min(self.max).min(self.cap - self.got.len()); self.got.extend_from_slice(&b[..n]); Ok(n) }
+    fn flush(&mut self) -> std::io::Result<()> { Ok(()) }
+}
+
 impl Area for PbArea {
     fn corpus(&self) -> Vec<Vec<String>> {
         let s = |l: Vec<(&str, &str)>, v: Val, ts: i64| Smp { labels: l.into_iter().map(|(a, b)| (a.to_string(), b.to_string())).collect(), val: v, ts };
@@ -39,6 +47,14 @@ impl Area for PbArea {
             let want_err = fams.iter().any(|f| f.name.is_empty() || f.samples.is_empty());
             if r.is_err() != want_err { fails.push(Failure { class: "refusal-wrong".into(), detail: format!("encode returned {:?}-ness {} but a family without name/samples present = {}; {}", r.is_ok(), r.is_ok(), want_err, line) }); }
             if !w.starts_with(pre.as_bytes()) { fails.push(Failure { class: "not-append-only".into(), detail: line.clone() }); }
+            // ---- oracle: the stream does not depend on how the writer takes the bytes; a writer that stops taking bytes is an error, never a silent truncation
+            let body = &w[pre.len()..];
+            let mut ch = Chunky { got: vec![], max: 7, cap: usize::MAX };
+            let rc = ProtobufEncoder::new().encode(&mfs, &mut ch);
+            if rc.is_ok() != r.is_ok() || (r.is_ok() && ch.got != body) { fails.push(Failure { class: "writer-dependent-stream".into(), detail: format!("a writer taking 7 bytes per call received {} bytes (Ok = {}), a Vec received {} (Ok = {}); {}", ch.got.len(), rc.is_ok(), body.len(), r.is_ok(), line) }); }
+            if r.is_ok() && body.len() > 1 { let mut full = Chunky { got: vec![], max: usize::MAX, cap: body.len() - 1 }; let rf = ProtobufEncoder::new().encode(&mfs, &mut full);
+                if rf.is_ok() { fails.push(Failure { class: "writer-dependent-stream".into(), detail: format!("a writer that is full after {} of {} bytes: encode returned Ok (silent truncation); {}", body.len() - 1, body.len(), line) }); } }
+            stats.hit("short-writer-checked");
             stats.hit(if r.is_ok() { "encode:ok" } else { "encode:err" });
             model_lines.push(line.clone());
             outs.push(format!("{} {}", if r.is_ok() { "ok" } else { "err" }, hex_bytes(&w)));
